@@ -88,6 +88,25 @@ def py_env(build_dir, hashseed=None):
     return env
 
 
+class LibraryRaised(Infra):
+    """a worker died of an exception raised INSIDE the library (the frames after the last harness frame are library code):
+    on a tree where the checks used to run this is a change of behaviour the harness has no oracle for — reported as a
+    broken correspondence (VIOLATION … no-failing-input-found), not as an infrastructure failure"""
+
+    def __init__(self, argv, stderr):
+        Infra.__init__(self, "worker died inside the library: %s\n%s" % (" ".join(argv[-8:]), stderr[-3000:]))
+        self.argv, self.stderr = list(argv), stderr
+
+
+def raised_in_library(stderr):
+    frames = re.findall(r'File "([^"]+)", line \d+, in', stderr or "")
+    if not frames:
+        return False
+    last_h = max([i for i, f in enumerate(frames) if "/harness/" in f] or [-1])
+    tail = frames[last_h + 1:]
+    return bool(tail) and any(("/xdeps/" in f or f.startswith("xdeps/")) for f in tail)
+
+
 def run_jobs(jobs, timeout=600):
     """jobs: list of (argv, env); run in parallel; returns list of CompletedProcess"""
     def one(job):
@@ -97,6 +116,8 @@ def run_jobs(jobs, timeout=600):
         res = list(ex.map(one, jobs))
     for (argv, _), r in zip(jobs, res):
         if r.returncode != 0:
+            if raised_in_library(r.stderr):
+                raise LibraryRaised(argv, r.stderr)
             raise Infra("worker failed: %s\n%s" % (" ".join(argv[-8:]), (r.stderr or r.stdout)[-3000:]))
     return res
 
